@@ -121,12 +121,15 @@ pub fn any_o() -> O {
 pub struct Mem {
     pub o: [Cell<O>; 2],
     pub data: [[u8; 1]; 2],
+    /// second content of each file, served when `edited` is set (models an edit made after the load returned)
+    pub data2: [[u8; 1]; 2],
+    pub edited: Cell<bool>,
     pub reads: Cell<u8>,
     pub dir_reads: Cell<u8>,
 }
 impl Mem {
     pub fn new(oa: O, ob: O, da: u8, db: u8) -> Self {
-        Mem { o: [Cell::new(oa), Cell::new(ob)], data: [[da], [db]], reads: Cell::new(0), dir_reads: Cell::new(0) }
+        Mem { o: [Cell::new(oa), Cell::new(ob)], data: [[da], [db]], data2: [[da], [db]], edited: Cell::new(false), reads: Cell::new(0), dir_reads: Cell::new(0) }
     }
     pub fn any() -> Self {
         Mem::new(any_o(), any_o(), nd(), nd())
@@ -152,7 +155,7 @@ impl Source for Mem {
             O::NotFound => Err(io::Error::from(io::ErrorKind::NotFound)),
             O::Denied => Err(io::Error::from(io::ErrorKind::PermissionDenied)),
             O::Bad => Ok(FileContent::Slice(b"")),
-            O::Good => Ok(FileContent::Slice(&self.data[i])),
+            O::Good => Ok(FileContent::Slice(if self.edited.get() { &self.data2[i] } else { &self.data[i] })),
         }
     }
     fn read_dir(&self, _id: &str, _f: &mut dyn FnMut(DirEntry)) -> io::Result<()> {
@@ -626,6 +629,51 @@ macro_rules! real_map_scenarios {
             let v: u8 = nd();
             let h = m.insert(CacheEntry::new(A(v), "a".into(), || false));
             assert!(a_val(h) == v, "C02 a cleared key can be re-created");
+            std::mem::forget(m);
+        }
+        // ---- small scenarios (the sharded map needs > 15 GB for the larger ones) ----
+        fn s_two_present() {
+            let m = AssetMap::new();
+            let (v, w): (u8, u8) = (nd(), nd());
+            let ha = ptr(m.insert(CacheEntry::new(A(v), "a".into(), || false)));
+            let hb = ptr(m.insert(CacheEntry::new(A(w), "b".into(), || false)));
+            assert!(ha != hb, "C02 different ids are different entries");
+            match m.get("a", tid(0)) {
+                Some(x) => assert!(ptr(x) == ha && a_val(x) == v, "C01 a handle stays valid and readable while other entries are inserted"),
+                None => assert!(false, "C01 presence never flips back to absent"),
+            }
+            std::mem::forget(m);
+        }
+        fn s_take() {
+            let mut m = AssetMap::new();
+            let v: u8 = nd();
+            let _ = m.insert(CacheEntry::new(A(v), "a".into(), || false));
+            match m.take("a", tid(0)) {
+                Some(e) => {
+                    let (val, id) = e.into_inner::<A>();
+                    assert!(val.0 == v && &*id == "a", "C02 take hands back the stored value of the named key");
+                }
+                None => assert!(false, "C02 take must find what insert stored (same shard for shared and exclusive access)"),
+            }
+            assert!(!m.contains_key("a", tid(0)), "C02 take removes the named key");
+            std::mem::forget(m);
+        }
+        fn s_other_type() {
+            let mut m = AssetMap::new();
+            let v: u8 = nd();
+            let ha = ptr(m.insert(CacheEntry::new(A(v), "a".into(), || false)));
+            assert!(m.get("a", tid(1)).is_none() && !m.remove("a", tid(1)), "C02 an entry is invisible and untouchable under another type");
+            match m.get("a", tid(0)) {
+                Some(x) => assert!(ptr(x) == ha && a_val(x) == v, "C02 operations on another type leave the entry alone"),
+                None => assert!(false, "C02 entry lost"),
+            }
+            std::mem::forget(m);
+        }
+        fn s_clear() {
+            let mut m = AssetMap::new();
+            let _ = m.insert(CacheEntry::new(A(nd()), "a".into(), || false));
+            m.clear();
+            assert!(!m.contains_key("a", tid(0)) && m.get("a", tid(0)).is_none(), "C02 clear removes every entry");
             std::mem::forget(m);
         }
         /// drop ledger through the map: loser of an insert dropped once, take hands over, clear / drop of the map drop once
